@@ -170,6 +170,7 @@ def check_identity_term(idx: Index, rep: Report):
     if not top or not top[0].orelse:
         raise AnalysisError("identity-term branch not found")
     check_operator_circuit(idx, rep)
+    check_trotterize_covariance(idx, rep)
     # a non-identity term is skipped only when its coefficient is (numerically) zero: multiples of pi are NOT skippable, exp(-i k pi P) = (-1)^k
     guards = [n for n in ast.walk(top[0]) if isinstance(n, ast.If) and any("exp_pauliword_to_gates" in norm(x) for x in n.body) and "coef" in norm(n.test)]
     if guards:
@@ -317,6 +318,82 @@ def check_suzuki(idx: Index, rep: Report):
     base = {"qubit_op": Opaque("qubit_op"), "time": 1.0, "variational": False, "control": None, "return_phase": False, "pauli_order": None}
     decide_refusals(idx, rep, rule, g, [(f"trotter_order={k}", dict(base, trotter_order=k), k > 1 and k % 2 == 1) for k in range(1, 9)],
                     what="order 1 and even orders are accepted, odd orders above one are refused")
+
+
+def check_trotterize_covariance(idx: Index, rep: Report):
+    """trotterize folded as a whole on qubit operators (the exponentiating generator replaced by a recorder): the evolution depends on coefficient x time only,
+    so what reaches the generator - operator and time taken together - is coefficient x time / n_steps for EVERY term of the input, however small the
+    coefficient is by itself (an operator in small units evolved for a long time; one weak term next to strong ones).  Scalar time and per-term times."""
+    rule = "K8.trotterize-scaling"
+    f = idx.function(f"{AU}::trotterize")
+
+    class _QOp:
+        """qubit operator stand-in with openfermion's compress()"""
+        _sa_model = True
+
+        def __init__(self, terms=None):
+            self.terms = dict(terms or {})
+
+        def compress(self, abs_tol=1e-8):
+            self.terms = {k: v for k, v in self.terms.items() if abs(v) > abs_tol}
+
+        def __deepcopy__(self, memo):
+            return _QOp(self.terms)
+
+    class _StepCircuit:
+        _sa_model = True
+
+        def __mul__(self, n):
+            return self
+        __rmul__ = __mul__
+    seen = []
+
+    def recorder(a, k):
+        names = ["qubit_op", "time", "variational", "trotter_order", "control", "return_phase", "pauli_order"]
+        kw = dict(zip(names, a))
+        kw.update(k)
+        seen.append(kw)
+        return (_StepCircuit(), 1.0) if kw.get("return_phase") else _StepCircuit()
+
+    def hook(v, t):
+        if "Qubit" in t:
+            return isinstance(v, _QOp)
+        if "Fermion" in t:
+            return False
+        return None
+    wz, wx, wy = ((0, "Z"),), ((1, "X"),), ((0, "Y"), (1, "Y"))
+    cases = [("coefficients of order one", {wz: 0.25, wx: -0.5}, 0.8, 2), ("an operator in small units evolved for a long time", {wz: 4e-9, wx: -2e-9}, 1e8, 4),
+             ("one weak term next to strong ones", {wz: 0.7, wx: 3e-9, wy: 0.2}, 5e7, 1), ("per-term times", {wz: 4e-9, wx: 0.5}, {wz: 1e8, wx: 0.4}, 2)]
+    n = 0
+    for label, terms, time, steps in cases:
+        del seen[:]
+        fo = cs.make_folder(idx, AU, ctors={"get_exponentiated_qubit_operator_circuit": recorder})
+        fo.isinstance_hook = hook
+        try:
+            fo.run_function(f.node, {"operator": _QOp(terms), "time": time, "n_trotter_steps": steps, "trotter_order": 1, "variational": False,
+                                     "mapping_options": dict(), "control": None, "return_phase": True})
+        except Undecidable as e:
+            raise AnalysisError(f"trotterize not foldable ({label}): {e}")
+        except Raised as e:
+            n += 1
+            rep.violation(rule, f, f.node, text=f"trotterize, {label}", what="a qubit operator with a time is trotterized", reason=f"raises {e.exc_type}")
+            continue
+        if len(seen) != 1 or not isinstance(seen[0].get("qubit_op"), _QOp):
+            raise AnalysisError(f"trotterize ({label}): the call of the exponentiating generator was not recorded ({len(seen)} calls)")
+        got_op, got_t = seen[0]["qubit_op"].terms, seen[0]["time"]
+        bad = []
+        for w, c in terms.items():
+            want = c * (time[w] if isinstance(time, dict) else time) / steps
+            tw = got_t.get(w) if isinstance(got_t, dict) else got_t
+            have = None if w not in got_op or tw is None else got_op[w] * tw
+            if have is None or abs(have - want) > 1e-9 * max(1.0, abs(want)):
+                bad.append(f"term {w}: coefficient x time reaching the generator is {have}, expected {want:g}")
+        n += 1
+        rep.decide(not bad and set(got_op) == set(terms), rule, f, f.node, text=f"trotterize on a qubit operator, {label}: {len(terms)} terms, {steps} step(s)",
+                   what="every term of the operator reaches the exponentiating generator with coefficient x time / n_steps - the evolution depends on the product only, so no "
+                        "term is dropped because its coefficient alone is small",
+                   reason="; ".join(bad[:2]) or f"terms reaching the generator: {sorted(got_op)}")
+    rep.floor("trotterize folds on qubit operators", n, 4)
 
 
 def check_trotterize(idx: Index, rep: Report):
